@@ -271,6 +271,43 @@ func init() {
 		return jobs
 	}
 
+	// ---- C19: save / load round trip at every reachable state ----
+	plans["C19"] = func(thorough bool) []*Job {
+		var jobs []*Job
+		for _, cfg := range featureCfgs(true) {
+			if !thorough && (cfg.Expiry == "creating" || cfg.Expiry == "custom") {
+				continue
+			}
+			if cfg.MaxSize > 0 {
+				cfg.MaxSize = 3
+			}
+			var a []string
+			for _, k := range []int{1, 2, 3} {
+				a = append(a, fmt.Sprintf("set %d", k), fmt.Sprintf("get %d", k), fmt.Sprintf("inv %d", k))
+				if cfg.MaxWeight > 0 {
+					a = append(a, fmt.Sprintf("set %d 2", k), fmt.Sprintf("set %d 0", k))
+				}
+				if cfg.Expiry != "" {
+					a = append(a, fmt.Sprintf("sea %d 30", k))
+				}
+				if cfg.Refresh != "" {
+					a = append(a, fmt.Sprintf("sra %d 10", k))
+				}
+			}
+			if cfg.Expiry != "" || cfg.Refresh != "" {
+				a = append(a, "adv 1", "adv 39", "adv 60")
+			}
+			depth, budget := 3, 90
+			if thorough {
+				depth, budget = 4, 600
+			}
+			p := seqParams{Cfg: cfg, Alphabet: a, Persist: &persistParams{TargetMax: []int64{-1, 1, 2, 10}},
+				Kinds: []string{"no-seq-kinds"}}
+			jobs = append(jobs, seqJob(p, depth, 4, budget, "round-trips"))
+		}
+		return jobs
+	}
+
 	// ---- C11: refresh (sequential part) ----
 	plans["C11"] = func(thorough bool) []*Job {
 		var jobs []*Job
